@@ -297,15 +297,21 @@ def manager_histories(ctx, exe, thorough):
             stats["sorted_then_unsorted"] += 1
         if outside_created:
             stats["info_outside_then_lookup"] += 1
-        f = run_manager_history(exe, h)
+        try:
+            f = run_manager_history(exe, h)
+        except Exception as e_:      # a reply that cannot be parsed etc.: a finding to report, never an exception inside Hypothesis
+            f = (len(ops) - 1, "history:unparsable-reply", "%s: %s" % (type(e_).__name__, str(e_)[:200]))
         ctx.evaluations += len(ops)
         if f is not None and f[1] not in fails:
             fails[f[1]] = (h, f)
 
     hist()
     for key, (h, f) in sorted(fails.items()):
-        small = shrink_manager_history(exe, h, key)
-        g = run_manager_history(exe, small) or f
+        try:
+            small = shrink_manager_history(exe, h, key)
+            g = run_manager_history(exe, small) or f
+        except Exception:
+            small, g = h, f
         ctx.violation(key, {"history": small}, "history of %d lookups over %d registries in one process (minimised from %d): %s\n  registries: %s\n  ops: %s" %
                       (len(small["ops"]), len(small["regs"]), len(h["ops"]), g[2],
                        [[NAMES[small["db"]][z] for z in r["zones"]] for r in small["regs"]], small["ops"]))
